@@ -270,10 +270,8 @@ def printArgsWith : Args → List Gap → List Tok
   | .cons e es, [] => e.print ++ .comma :: printArgsWith es []
   | .cons e es, g :: gs => e.print ++ g.toks ++ printArgsWith es gs
 
-theorem skipNl_replicate (k : Nat) (Z : List Tok) : skipNl (List.replicate k .nl ++ Z) = skipNl Z := by
-  induction k with
-  | zero => rfl
-  | succ k ih => simp [List.replicate_succ, skipNl, ih]
+theorem skipNl_replicate (k : Nat) (Z : List Tok) : skipNl (List.replicate k .nl ++ Z) = skipNl Z :=
+  skipNl_nls k Z
 
 /-- leading newlines are skipped by `parse_delimited_list` -/
 theorem PL.skip_front {mode : FoldMode} {close : Tok} {k : Nat} {Z : List Tok} {res : Res Args}
